@@ -278,6 +278,10 @@ pub struct TsigExpect {
 
 #[derive(Clone, Debug, Default)]
 pub struct MetaExpect {
+    /// (ID, flags word) of RFC 1035 4.1.1
+    pub header: Option<(u16, u16)>,
+    /// (QTYPE, QCLASS) numbers of the questions
+    pub questions: Option<Vec<(u16, u16)>>,
     pub opt: Option<OptExpect>,
     pub tsig: Option<TsigExpect>,
 }
@@ -372,7 +376,8 @@ pub fn tsig_specs() -> Vec<TsigSpec> {
 // ------------------------------------------------------------------------------------------
 // value sweeps (direction 1)
 
-pub const VALUE_SWEEPS: [&str; 21] = [
+pub const VALUE_SWEEPS: [&str; 22] = [
+    "update-empty-type",
     "opcode-x-rcode",
     "qtype",
     "qclass",
@@ -399,7 +404,7 @@ pub const VALUE_SWEEPS: [&str; 21] = [
 pub fn value_sweep_size(name: &str) -> u64 {
     match name {
         "opcode-x-rcode" => 16 * 4096,
-        "qtype" | "qclass" | "record-class" | "unknown-type" | "nsec-bitmap-type" | "cert-type" | "svcb-unknown-key" | "edns-payload"
+        "update-empty-type" | "qtype" | "qclass" | "record-class" | "unknown-type" | "nsec-bitmap-type" | "cert-type" | "svcb-unknown-key" | "edns-payload"
         | "edns-option-code" | "tsig-error" | "edns-z-do" | "message-id" => 65536,
         "record-ttl" => 66 * 3,
         "edns-version" => 256,
@@ -445,6 +450,18 @@ pub fn value_case(name: &str, i: u64) -> Option<(Message, [Vec<XRec>; 3], MetaEx
                 edns = Some(EdnsSpec::plain("plain"));
             }
             exp[0].push(a_rec("a.z."));
+        }
+        // UPDATE message, update section: an empty-RDATA record (RFC 2136 2.5.2 / 2.5.4) of every type code;
+        // OPT, SIG and TSIG are meta records that only live in the additional section
+        "update-empty-type" => {
+            let t = i as u16;
+            if matches!(t, 24 | 41 | 250) {
+                return None;
+            }
+            m.metadata.op_code = OpCode::Update;
+            let mut r = Record::update0(hn(["z.", "B.a.z."][(i % 2) as usize]), (i % 3) as u32, RecordType::from(t));
+            r.dns_class = [DNSClass::ANY, DNSClass::NONE][(i / 2 % 2) as usize];
+            exp[1].push(XRec { record: r, rtype: t, wire: vec![] });
         }
         "qtype" => {
             m.queries.clear();
@@ -582,6 +599,18 @@ pub fn value_case(name: &str, i: u64) -> Option<(Message, [Vec<XRec>; 3], MetaEx
     for x in &exp[2] {
         m.add_additional(x.record.clone());
     }
+    let (id, qr, op) = match name {
+        "message-id" => (i as u16, (i % 2) as u16, 0u16),
+        "opcode-x-rcode" => (0x4242, 1, (i / 4096) as u16),
+        "update-empty-type" => (0x4242, 1, 5),
+        _ => (0x4242, 1, 0),
+    };
+    meta.header = Some((id, qr << 15 | op << 11 | (rcode & 0xf)));
+    meta.questions = Some(vec![match name {
+        "qtype" => (i as u16, 1),
+        "qclass" => (1, i as u16),
+        _ => (1, 1),
+    }]);
     if let Some(e) = &edns {
         m.set_edns(e.build());
         meta.opt = Some(e.expect(rcode));
